@@ -6,29 +6,41 @@ Import ListNotations.
 
 Definition find_method (tbl : list minfo) (n : str) : option minfo := find (fun m => str_eqb (m_name m) n) tbl.
 
-(* does a call to one of these functions (possibly through helpers that do not lock) take the mutex? *)
+(* does a call to one of these functions (possibly through helpers that do not lock) take the mutex?
+   (a function that locks may call helpers before it does: m_pre; they count too) *)
 Fixpoint reaches_lock (fuel : nat) (tbl : list minfo) (names : list str) : bool :=
   match fuel with
   | O => true        (* unknown: be conservative *)
   | S f =>
       existsb (fun n => match find_method tbl n with
-                        | Some m => m_locks m || reaches_lock f tbl (m_calls m)
+                        | Some m => m_locks m || reaches_lock f tbl (m_pre m ++ m_calls m)
                         | None => false
                         end) names
   end.
 
-Definition calls (c m : minfo) : bool := mem_str (m_name m) (m_calls c).
+(* is this function only ever executed by a thread that holds the mutex? It is private, nobody calls it before taking
+   the lock, and each of its callers either took the lock before the call or is itself only executed under it *)
+Fixpoint held (fuel : nat) (tbl : list minfo) (m : minfo) : bool :=
+  match fuel with
+  | O => false       (* unknown: be conservative *)
+  | S f =>
+      negb (m_public m) &&
+      forallb (fun c => negb (mem_str (m_name m) (m_pre c)) &&
+                        (if mem_str (m_name m) (m_calls c) then m_locks c || held f tbl c else true)) tbl
+  end.
 
 (* The discipline:
-   1. a function that touches the shared fields of the client without taking the mutex itself is private and every
-      one of its callers holds the mutex (so the access is inside a critical section anyway);
-   2. a function that holds the mutex never calls, directly or through helpers, a function that takes it
-      (sync.Mutex is not reentrant: that would be a self-deadlock). *)
+   1. a function that touches the shared fields of the client without taking the mutex itself is only ever executed
+      by a thread that holds it (so the access is inside a critical section anyway);
+   2. a function never calls, directly or through helpers, a function that takes the mutex while it holds it itself
+      (sync.Mutex is not reentrant: that would be a self-deadlock). m_calls of a locking function are the calls it
+      makes after it took the lock (the translator insists on a top-level Lock with a deferred Unlock, so that is
+      "until it returns"). *)
 Definition well_locked (tbl : list minfo) : bool :=
   forallb (fun m =>
     match m_unlocked m with
     | [] => true
-    | _ => negb (m_public m) && forallb (fun c => if calls c m then m_locks c else true) tbl
+    | _ => held 6 tbl m
     end &&
     (if m_locks m then negb (reaches_lock 6 tbl (m_calls m)) else true)) tbl.
 
